@@ -17,6 +17,7 @@ import (
 	"fmt"
 	"math/rand"
 	"os"
+	"runtime/pprof"
 	"strconv"
 	"strings"
 	"sync"
@@ -46,14 +47,15 @@ const syncBeaconID = "verif"
 // ---------------------------------------------------------------- the true chain
 
 type truth struct {
-	chained bool
-	sch     *crypto.Scheme
-	pub     kyber.Point
-	seed    []byte
-	sigs    [][]byte // sigs[0] = seed, sigs[r] = group signature of round r
-	other   [][]byte // signatures on the same messages by a foreign key
-	junk    []byte
-	toSym   map[string][]byte
+	chained   bool
+	sch       *crypto.Scheme
+	pub       kyber.Point
+	seed      []byte
+	sigs      [][]byte // sigs[0] = seed, sigs[r] = group signature of round r
+	other     [][]byte // signatures on the same messages by a foreign key
+	junk      []byte
+	toSym     map[string][]byte
+	labelMemo map[int]string
 }
 
 func thresholdSign(sch *crypto.Scheme, pub *share.PubPoly, shares []*share.PriShare, thr, n int, msg []byte) []byte {
@@ -212,6 +214,18 @@ func (t *truth) verify(b *common.Beacon) (ok bool) {
 
 // labels evaluates the real verifier on every packet kind at every round 1..n; the answer must not depend on the round.
 func (t *truth) labels(n int) string {
+	if t.labelMemo == nil {
+		t.labelMemo = map[int]string{}
+	}
+	if l, ok := t.labelMemo[n]; ok {
+		return l
+	}
+	l := t.labelsUncached(n)
+	t.labelMemo[n] = l
+	return l
+}
+
+func (t *truth) labelsUncached(n int) string {
 	var out []string
 	for _, k := range []byte{'t', 'p', 'w', 's', 'o', 'e'} {
 		val := -1
@@ -253,6 +267,7 @@ type recStore struct {
 	chain.Store
 	mu     sync.Mutex
 	writes []*common.Beacon
+	n      atomic.Int64 // successful Puts so far
 }
 
 func (r *recStore) Put(ctx context.Context, b *common.Beacon) error {
@@ -261,6 +276,7 @@ func (r *recStore) Put(ctx context.Context, b *common.Beacon) error {
 		r.mu.Lock()
 		r.writes = append(r.writes, &common.Beacon{Round: b.Round, Signature: append([]byte{}, b.Signature...), PreviousSig: append([]byte{}, b.PreviousSig...)})
 		r.mu.Unlock()
+		r.n.Add(1)
 	}
 	return err
 }
@@ -339,8 +355,8 @@ type mockClient struct {
 	nCalls  map[string]int      // "addr@from" -> calls so far in this op
 	calls   []string
 	upTo    uint64
-	upToReq bool // the target of each inner Sync is the FromRound of its request (CorrectPastBeacons)
-	drained *atomic.Int64
+	upToReq bool               // the target of each inner Sync is the FromRound of its request (CorrectPastBeacons)
+	stored  *atomic.Int64      // successful base-store Puts of the node under test
 	cancel  context.CancelFunc // cancels the context of the running Sync (what Run does to a stuck sync)
 	wg      sync.WaitGroup
 }
@@ -381,7 +397,7 @@ func (m *mockClient) SyncChain(ctx context.Context, p net.Peer, in *drand.SyncRe
 	}
 	items := m.t.resolveScript(script, from)
 	ch := make(chan *drand.BeaconPacket) // unbuffered: a send completes when tryNode is in its select
-	start := m.drained.Load()
+	start := m.stored.Load()
 	m.wg.Add(1)
 	go func() {
 		defer m.wg.Done()
@@ -393,15 +409,15 @@ func (m *mockClient) SyncChain(ctx context.Context, p net.Peer, in *drand.SyncRe
 			case it.close:
 				return
 			case it.stall:
-				// nothing more arrives. Once tryNode is idle in its select, cancel the sync (Run does this after
-				// factor*period without progress). tryNode is idle when every packet sent was stored (one
-				// newSyncedBeacon each) and the last one did not reach the target; if a packet was refused tryNode
-				// has returned and ctx is done.
+				// nothing more arrives. Once tryNode has dealt with everything sent, cancel the sync (Run does this
+				// after factor*period without progress). Every packet sent was either stored (one base-store Put
+				// each, made synchronously by tryNode) or refused (then tryNode has returned and ctx is done); if
+				// the last one reached the target tryNode returns true and nothing is cancelled.
 				for {
 					if ctx.Err() != nil {
 						return
 					}
-					if m.drained.Load()-start >= sent && !(lastSent != nil && lastSent.Round == upTo) {
+					if m.stored.Load()-start >= sent && !(lastSent != nil && lastSent.Round == upTo) {
 						cancel()
 						<-ctx.Done()
 						return
@@ -516,7 +532,7 @@ func newSyncSUT(chained, follow bool, backend string, n, head int) *syncSUT {
 	}
 	cbs := beacon.NewCallbackStore(quietLogger(), under)
 	s.top = cbs
-	s.cl = &mockClient{t: t, drained: &s.drained}
+	s.cl = &mockClient{t: t, stored: &s.base.n}
 	info := &public.Info{PublicKey: t.pub, ID: syncBeaconID, Period: time.Second, Scheme: t.sch.Name,
 		GenesisTime: time.Now().Unix() - 1_000_000, GenesisSeed: t.seed}
 	mctx, stop := context.WithCancel(context.Background())
@@ -687,6 +703,12 @@ func symBytes(s string) []byte {
 }
 
 func syncEngine(args []string, in *bufio.Scanner, out *bufio.Writer) {
+	if pf := os.Getenv("VERIF_PROF"); pf != "" {
+		if f, err := os.Create(pf); err == nil {
+			pprof.StartCPUProfile(f)
+			defer pprof.StopCPUProfile()
+		}
+	}
 	var s *syncSUT
 	defer func() {
 		if s != nil {
@@ -707,7 +729,7 @@ func syncEngine(args []string, in *bufio.Scanner, out *bufio.Writer) {
 				}
 				n, _ := strconv.Atoi(f[4])
 				head, _ := strconv.Atoi(f[5])
-				s = newSyncSUT(f[1] == "1", f[2] == "follow", f[3], n+2, head)
+				s = newSyncSUT(f[1] == "1", f[2] == "follow", f[3], n+10, head)
 				return "ok " + s.t.labels(n)
 			case "sync": // sync <upTo> <perm> peers…
 				upTo := parseU(f[1])
